@@ -429,6 +429,14 @@ DoRowAdd(st, op, fired) ==
               s2 == IF R.tbl = 0 THEN s1 ELSE [s1 EXCEPT !.tbl[R.tbl] = GrowCols(@, n)]
           IN Fire(s2, R.tbl, r, fired)
 
+\* Row.Add as it was found (defect D2): the table is not told about a cell added to a row that is
+\* already in it.  Kept so that the bounded model can show the consequence (bin/selftest runs MCGrid
+\* with Variant = "asfound" and expects Inv_C02 to fail).
+DoRowAddAsFound(st, op, fired) ==
+  LET r == op.r  R == st.row[r] IN
+  IF R.sep THEN Raise(st, R.tbl, r, Err("LIB", "lib"))
+  ELSE Fire([st EXCEPT !.row[r].cells = Append(@, MkCell(op.item))], R.tbl, r, fired)
+
 DoAddRow(st, op, fired) == Fire(Attach(st, op.t, op.r), op.t, op.r, fired)
 
 ErrArg(e, src) == IF e = "nil" THEN <<>> ELSE <<Err(e, src)>>
